@@ -701,7 +701,13 @@ int Main(int argc, char** argv, Engine& e) {
     if (!a.noMinimise) { Minimiser m(e, paths, p, v0.Class(), 400); p.ops = m.Run(); reruns = m.reruns; }
     // final execution of the minimised plan, twice (same-plan-twice hash match)
     auto f1 = RunForked(e, p, false, paths), f2 = RunForked(e, p, false, paths);
-    if (f1.out.kind == Outcome::OK || f1.out.v.Class() != v0.Class() || f2.out.kind != f1.out.kind || f2.out.hash != f1.out.hash) {
+    auto unstable = [&] { return f1.out.kind == Outcome::OK || f1.out.v.Class() != v0.Class() || f2.out.kind != f1.out.kind || f2.out.hash != f1.out.hash; };
+    if (unstable() && p.ops.size() != fr.ops.size()) {
+      // the minimised plan is not stable (e.g. undefined behaviour whose effect depends on what surrounds it): fall back to the recorded, unminimised plan
+      fprintf(stderr, "note: minimised plan for run %" PRIu64 " is not stable, falling back to the recorded plan\n", run);
+      p.ops = fr.ops; reruns = -reruns; f1 = RunForked(e, p, false, paths); f2 = RunForked(e, p, false, paths);
+    }
+    if (unstable()) {
       fprintf(stderr, "MACHINERY: minimised plan for run %" PRIu64 " does not reproduce deterministically (original %s; replays %s hash %016" PRIx64 " / %s hash %016" PRIx64 ")\n", run, v0.Class().c_str(), f1.out.Class().c_str(), f1.out.hash, f2.out.Class().c_str(), f2.out.hash); ++machineryFaults; return;
     }
     json j = PlanToJson(p);
@@ -781,7 +787,8 @@ int Main(int argc, char** argv, Engine& e) {
   }
   printf("done: runs=%" PRIu64 " nontrivial=%" PRIu64 " steps=%" PRIu64 " distinct_seq=%zu states=%zu crashes=%zu known=%zu recheck=%" PRIu64 "/%" PRIu64 " wall=%.1fs\n",
          runsDone, nontrivialRuns, stepsDone, allSeqs.size(), allStates.size(), crashedRuns.size(), kfHit.size(), rechecked - mismatches, rechecked, wall);
-  if (machineryFaults) { printf("MACHINERY-FAULT count=%" PRIu64 " (exit 2)\n", machineryFaults); return 2; }
+  if (machineryFaults && exitCode != 1) { printf("MACHINERY-FAULT count=%" PRIu64 " (exit 2)\n", machineryFaults); return 2; }
+  if (machineryFaults) printf("note: %" PRIu64 " further candidate(s) could not be reproduced deterministically and are not reported; the violation(s) above passed the replay gate\n", machineryFaults);
   return exitCode;
 }
 
